@@ -408,6 +408,19 @@ def coverage(repo, chk):
     chk.expect(rt in (E(f'numpy.max({cnt}) / {tn}'), E(f'{cnt}.max() / {tn}'), E(f'numpy.max({cnt}) / len({a1})')), 'C05.5b', 'R15', fn.site(rets[0]), ast.unparse(rets[0]), 'score = largest bucket / number of rows', f'the score must be max(counts) / number of rows; found {show(rt)[:100]}')
     # the key is a function of both elements of the row's own pair and of nothing else that varies with the row
     ksite = helper.site() if (helper is not None and opaque) else fn.site(inc)
+    if kterm is not None:
+        # the two parameters are numpy arrays: an elementwise product / sum with scalars read at i is that arithmetic on the element at i
+        def distribute(t):
+            if not isinstance(t, tuple):
+                return t
+            t = tuple(distribute(x) for x in t)
+            if t and t[0] == 'sub' and isinstance(t[1], tuple) and t[1] and t[1][0] in ('*', '+') and t[2] == ('name', i):
+                parts = t[1][1]
+                arrs = [x for x in parts if x in (('name', a1), ('name', a2))]
+                if len(arrs) == 1 and all(x in arrs or x[0] == 'num' for x in parts):
+                    return (t[1][0], tuple(('sub', x, t[2]) if x in arrs else x for x in parts))
+            return t
+        kterm = distribute(kterm)
     if kterm is None:
         chk.unsure('C05.5c', 'R9', ksite, 'pair key', 'the pair key expression could not be recovered')
     else:
